@@ -27,6 +27,7 @@ import (
 const (
 	settle   = 5 * time.Second                        // upper bound for an expected asynchronous effect (bridge start, marker delivery)
 	grace    = 40 * time.Millisecond                  // extra time after the expected effects before the final snapshot
+	lateGap  = 120 * time.Millisecond                 // late cells: the tunnel is registered this long after the request passed the dispatch
 	tunnelID = "tcp-tunnel-1758990000000000000-18080" // the shape client/mapping generateTunnelID produces
 )
 
@@ -357,42 +358,88 @@ func (w *world) open(st stepT, cell cellT, t *fw.Trace) (err error) {
 	w.parties[st.Who] = p
 	w.order = append(w.order, st.Who)
 	ts, tm := w.arrival(st.Node)
-	_, _, before := w.bridge()
-	ack, _, _, err := c.TunnelOpen(w.request(st.Cred))
-	if err != nil {
-		return err
-	}
-	if ack != nil {
-		p.ack = "fail"
-		if ack.Success {
-			p.ack = "ok"
-		}
+	_, _, p.before = w.bridge()
+	late := strings.HasPrefix(cell.TS, "late") && st.Who == "R"
+	if late {
+		ts = cell.TS // nothing registered at arrival; the tunnel appears while the request is served
 	}
 	ms := cell.MS
 	if st.MS != "" {
 		ms = st.MS
 	}
-	ev := fw.Event{"ev": "Open", "who": st.Who, "id": st.ID, "cred": st.Cred, "ms": ms, "ts": ts, "tm": tm,
-		"ack": p.ack, "closed": c.Closed(), "node": st.Node, "via": st.Via}
+	p.st = st
+	p.ev = fw.Event{"ev": "Open", "who": st.Who, "id": st.ID, "cred": st.Cred, "ms": ms, "ts": ts, "tm": tm, "node": st.Node, "via": st.Via}
 	if cell.Keyless {
-		ev["keyless"] = true
+		p.ev["keyless"] = true
 	}
-	t.Events = append(t.Events, ev)
+	req := w.request(st.Cred)
+	send := func() error {
+		ack, _, _, err := c.TunnelOpen(req)
+		if err != nil {
+			return err
+		}
+		if ack != nil {
+			p.ack = "fail"
+			if ack.Success {
+				p.ack = "ok"
+			}
+		}
+		return nil
+	}
+	if late {
+		// the request is served in its own goroutine (as the connection's read loop would); the
+		// script goes on once it is past the dispatch - the acknowledgement is on the wire, or
+		// HandlePacket has returned - so that what the next step registers is found by the
+		// request's routing-table poll, not by the dispatcher's look at arrival
+		p.pending = make(chan error, 1)
+		go func() { p.pending <- send() }()
+		waitFor(func() bool { return len(c.T.Peek()) > 0 || len(p.pending) > 0 })
+		time.Sleep(lateGap)
+		return nil
+	}
+	if err := send(); err != nil {
+		return err
+	}
+	return w.finish(p, cell, t, st.Exp)
+}
+
+// resolve waits for a request that was left running (late cells) and takes its outcome.
+func (w *world) resolve(st stepT, cell cellT, t *fw.Trace) error {
+	p := w.parties[st.Who]
+	if p == nil || p.pending == nil {
+		return fmt.Errorf("nothing pending for %s", st.Who)
+	}
+	select {
+	case err := <-p.pending:
+		if err != nil {
+			return err
+		}
+	case <-time.After(15 * time.Second): // lookupTunnelRouting gives up after 10 s
+		return inconclusiveErr("pending TunnelOpen did not return")
+	}
+	return w.finish(p, cell, t, st.Exp)
+}
+
+// finish records the request's outcome and lets the asynchronous part of a successful open
+// finish, so that the next step meets a definite tunnel state: a joiner that made the bridge
+// ready => the copy loops (or the cross-node forwarders) have taken both sockets over.
+func (w *world) finish(p *party, cell cellT, t *fw.Trace, exp json.RawMessage) error {
+	st := p.st
+	st.Exp = exp
+	p.ev["ack"], p.ev["closed"] = p.ack, p.c.Closed()
+	t.Events = append(t.Events, p.ev)
 	if p.ack != "ok" {
 		w.bind(st, p, cell)
 		return nil
 	}
-	// let the asynchronous part of a successful open finish, so that the next step meets a
-	// definite tunnel state: a joiner that made the bridge ready => the copy loops (or the
-	// cross-node forwarders) have taken both sockets over
 	bn, _, after := w.bridge()
-	if bn != "" && bn != st.Node && !before.CrossNode {
+	if bn != "" && bn != st.Node && !p.before.CrossNode {
 		waitFor(func() bool { _, _, b := w.bridge(); return b.CrossNode }) // TargetReady frame handled on the source node
 		_, _, after = w.bridge()
 	}
-	if bn != "" && !before.TargetReady && after.TargetReady {
+	if bn != "" && !p.before.TargetReady && after.TargetReady && (after.Target == p.d || after.CrossNode) {
 		src := w.duplexOf(after.Source)
-		ok := waitFor(func() bool { return d.Waiting() > 0 && (src == nil || src.Waiting() > 0) })
+		ok := waitFor(func() bool { return p.d.Waiting() > 0 && (src == nil || src.Waiting() > 0) })
 		if !ok {
 			return inconclusiveErr("bridge did not take the sockets over within the margin")
 		}
@@ -480,7 +527,8 @@ func (w *world) markers(t *fw.Trace, legitServed bool) error {
 		marker[who] = seen(p)
 		stray[who] = len(p.c.T.Peek()) > 0 // Send drained the acknowledgement; anything here came later
 	}
-	t.Events = append(t.Events, fw.Event{"ev": "Obs", "att": att, "marker": marker, "stray": stray})
+	_, bm, _ := w.bridge()
+	t.Events = append(t.Events, fw.Event{"ev": "Obs", "bm": bm, "att": att, "marker": marker, "stray": stray})
 	if legitServed {
 		s, tg := w.parties["S"], w.parties["T"]
 		if s == nil || tg == nil || marker["S"] != true || marker["T"] != true {
@@ -503,7 +551,7 @@ func drive(env *fw.Env, b fw.Behaviour) *fw.Trace {
 			two = true
 		}
 	}
-	w, err := newWorld(two, beh.Cell.Keyless)
+	w, err := newWorld(two, strings.HasPrefix(beh.Cell.TS, "late"), beh.Cell.Keyless)
 	if err != nil {
 		return &fw.Trace{Status: fw.DriverError, Note: "world: " + err.Error()}
 	}
@@ -525,6 +573,8 @@ func drive(env *fw.Env, b fw.Behaviour) *fw.Trace {
 			// the plain legitimate flows on an untouched active mapping have to work
 			st.Must = st.Must || (legit && st.Who != "R")
 			err = w.open(st, beh.Cell, t)
+		case "Resolve":
+			err = w.resolve(st, beh.Cell, t)
 		case "Marker":
 			err = w.markers(t, beh.Cell.Ord == "legitFirst" && beh.Cell.TS == "served")
 		default:
@@ -622,8 +672,8 @@ func selfTest(env *fw.Env, acc []*fw.Trace) []*fw.Trace {
 }
 
 func main() {
-	all := `{"none", "waiting", "served", "remote"}`
-	local := `{"none", "waiting", "served"}`
+	all := `{"none", "waiting", "served", "remote", "lateLocal", "lateRemote"}`
+	local := `{"none", "waiting", "served", "lateLocal", "lateRemote"}` // the late classes are few (70 cells) and carry their own nodes
 	fw.Main(&fw.Property{
 		ID:        "C04",
 		DesignRef: "DESIGN.md §5 C04",
